@@ -56,6 +56,11 @@ def independent(g, mt, c, terms, coef, tables=None):
         elif name == "symsym":
             s = 0.5 * (grad + np.swapaxes(grad, -1, -2))
             f = np.einsum("epikd,epjkd->epij", s, s)
+        elif name == "rotsym":     # the strain written in a rotated frame, weighted component by component: (Q e(u) Q') : (W o (Q e(v) Q'))
+            Qm, Wm = (np.asarray(a_)[:dim, :dim] for a_ in par)
+            s = 0.5 * (grad + np.swapaxes(grad, -1, -2))
+            sr = np.einsum("ak,epikl,bl->epiab", Qm, s, Qm)
+            f = np.einsum("epiab,ab,epjab->epij", sr, Wm, sr)
         elif name == "advect":     # (b·∇u) v for a scalar field
             b = np.asarray(par)
             f = np.einsum("k,epik,pj->epij", b[:dim], grad[..., 0], phi[..., 0])
@@ -84,6 +89,10 @@ def user_form(c, terms, coef):
                 t = Trace(u.grad) * Trace(v.grad)
             elif name == "symsym":
                 t = Sym_Grad(u).ddot(Sym_Grad(v))
+            elif name == "rotsym":
+                dd_ = u.groupElem.dim
+                Qm, Wm = (np.asarray(a_)[:dd_, :dd_] for a_ in par)
+                t = (Qm @ Sym_Grad(u) @ Qm.T).ddot(Wm * (Qm @ Sym_Grad(v) @ Qm.T))
             elif name == "advect":
                 t = (u.grad.dot(np.asarray(par)[: u.groupElem.dim])) * v
             elif name == "gradAgrad":
@@ -198,8 +207,15 @@ def main():
                         res.fail("user linear form differs: f.v (vector)", f"max difference {np.abs(gotF - wantF).max()} on {et}", ident)
                     for _ in range(2 if not thorough else 4):
                         cname, coef = rng.choice(coefs)
-                        pool = [("uv", None), ("gradgrad", None), ("gradgradT", None), ("divdiv", None), ("symsym", None)]
+                        thq = 0.3 + rng.random()
+                        Qr = np.array([[np.cos(thq), -np.sin(thq), 0.0], [np.sin(thq), np.cos(thq), 0.0], [0.0, 0.0, 1.0]])
+                        if dim == 3:
+                            Qr = Qr @ np.array([[1.0, 0.0, 0.0], [0.0, 0.6, -0.8], [0.0, 0.8, 0.6]])
+                        Wr = np.array([[3.0, 0.5, 0.25], [0.5, 1.0, 0.75], [0.25, 0.75, 2.0]])
+                        pool = [("uv", None), ("gradgrad", None), ("gradgradT", None), ("divdiv", None), ("symsym", None), ("rotsym", (Qr, Wr))]
                         terms = rng.sample(pool, rng.randint(1, 3))
+                        if _ == 0:
+                            terms = [("rotsym", (Qr, Wr))] + terms[:1] if terms[0][0] != "rotsym" else terms
                         res.case((et, str(mt), "grammar-vector", tuple(t[0] for t in terms), cname))
                         try:
                             got = squeeze(user_form(dim, terms, coef).Integrate_e(fldv))
